@@ -22,6 +22,7 @@ import sandbox, sessions, c10_util
 PENDING_FINDINGS = []
 
 BASE = ["a.test", "b.a.test", "x.b.a.test", "other.test"]
+ALPHA = "abcdefghijklm.nopqrstuvwxyz.test"       # every letter once: "matching ignores case" must hold for each of them
 SENDERS = ["list-@lists.test-@[]", "s@sender.test", "", "#@[]", "owner-@[]", "-@[]", "@-@[]", "a@b@lists.test-@[]",
            "list-@lists.test-@[]x", "list-@lists.test@[]", "LIST-@Lists.Test-@[]", "list-@lists.test--@[]", "list-@-@[]"]
 CHUNK = 48          # recipients per message
@@ -62,11 +63,12 @@ def enum_cfgs():
 
 def rand_cfg(rng, fill=0):
     me = rng.choice(["me.test", "me.test", "a.test", "Me.Test", "other.test"])
-    pool = BASE + ["me.test"]
+    pool = BASE + ["me.test", ALPHA]
     lo = None if rng.random() < 0.12 else [d if rng.random() < 0.7 else casevar(rng, d) for d in rng.sample(pool, rng.randint(0, 3))]
     users = ["u", "v", ".u", "f.u"]
     keys = [u + "@" + d for u in users[:2] for d in BASE] + [".u@a.test", "f.u@b.a.test", ".u@x.b.a.test"] + BASE + \
-           [".a.test", ".b.a.test", ".test", ".x.b.a.test", ".other.test", ""] + ["me.test", "remote.test", ".me.test"]
+           [".a.test", ".b.a.test", ".test", ".x.b.a.test", ".other.test", ""] + ["me.test", "remote.test", ".me.test"] + \
+           [ALPHA, ".nopqrstuvwxyz.test", "u@" + ALPHA]
     vd = None
     if rng.random() > 0.08:
         vd = []
@@ -110,6 +112,8 @@ def gen_addrs(rng, cfgs, nextra):
     for d in names:
         doms += near(d)
     doms += ["", "remote.test", "test", "fill3.test", "FILL7.test", "q.w1.test", "fill999.test"]
+    if ALPHA in names:          # each letter alone in the other case
+        doms += [ALPHA[:i] + ALPHA[i].upper() + ALPHA[i + 1:] for i in range(len(ALPHA)) if ALPHA[i].isalpha()][:27] + ["q." + ALPHA.upper()]
     doms = list(dict.fromkeys(doms))
     core = []
     for l in ("u", "U", ""):
